@@ -193,3 +193,62 @@ def exact_system_eval(spec, xvals: dict):
         for o in s['outputs']:
             env[o] = poly_eval_exact(s['terms'][o], xs)
     return env
+
+
+def random_loop_system(rng, size=2, name='loop', max_level=2, downstream=True, nonlinear=False):
+    """A feedback loop of `size` components: comp i computes u_i = c_i + sum_j A_ij * u_j (+ quadratic term if nonlinear)
+    + b_i * x_i, with a contraction matrix A (row sums < 0.6); optionally a downstream component reading u_0.
+    Returns (system, spec) with spec['A'], spec['b'], spec['c'] as Fractions for the exact linear solve."""
+    from amisc import Component, System, Variable
+    A = [[Fraction(0)] * size for _ in range(size)]
+    for i in range(size):
+        others = [j for j in range(size) if j != i]
+        # ring coupling guarantees one strongly connected component
+        js = {others[(i) % len(others)]} | ({rng.choice(others)} if rng.random() < 0.5 else set())
+        js.add((i + 1) % size)
+        js.discard(i)
+        for j in js:
+            A[i][j] = Fraction(rng.choice([-2, -1, 1, 2]), 8)
+    b = [Fraction(rng.choice([1, 2, -1]), 2) for _ in range(size)]
+    c = [Fraction(rng.randint(-2, 2), 2) for _ in range(size)]
+    variables = {f'x{i}': Variable(f'x{i}', distribution='U(0, 1)') for i in range(size)}
+    for i in range(size):
+        variables[f'u{i}'] = Variable(f'u{i}', domain=(-6.0, 6.0))
+    comps = []
+    for i in range(size):
+        ins = [f'x{i}'] + [f'u{j}' for j in range(size) if A[i][j] != 0]
+        coef = [float(b[i])] + [float(A[i][j]) for j in range(size) if A[i][j] != 0]
+        ci = float(c[i])
+
+        def model(inputs, _ins=tuple(ins), _coef=tuple(coef), _c=ci, _o=f'u{i}', _nl=nonlinear):
+            tot = _c
+            for n_, k_ in zip(_ins, _coef):
+                tot = tot + k_ * np.asarray(inputs[n_], dtype=float)
+            if _nl:
+                tot = tot + 0.02 * np.asarray(inputs[_ins[1]], dtype=float) ** 2
+            return {_o: tot}
+        comps.append(Component(model, [variables[n] for n in ins], [variables[f'u{i}']], name=f'l{i}', vectorized=True,
+                               data_fidelity=(max_level if nonlinear else 1,) * len(ins)))
+    spec = {'A': A, 'b': b, 'c': c, 'size': size, 'nonlinear': nonlinear}
+    if downstream:
+        variables['z'] = Variable('z', domain=(-50.0, 50.0))
+
+        def dmodel(inputs):
+            return {'z': 2.0 * np.asarray(inputs['u0'], dtype=float) + 1.0}
+        comps.append(Component(dmodel, [variables['u0']], [variables['z']], name='down', vectorized=True, data_fidelity=(1,)))
+    return System(*comps, name=name), spec
+
+
+def solve_affine_loop(spec, xvals):
+    """exact solution u of u = c + A u + b*x (Fractions), by Gaussian elimination"""
+    n = spec['size']
+    M = [[(Fraction(1) if i == j else Fraction(0)) - spec['A'][i][j] for j in range(n)] for i in range(n)]
+    rhs = [spec['c'][i] + spec['b'][i] * Fraction(xvals[f'x{i}']) for i in range(n)]
+    for col in range(n):
+        piv = next(r for r in range(col, n) if M[r][col] != 0)
+        M[col], M[piv] = M[piv], M[col]; rhs[col], rhs[piv] = rhs[piv], rhs[col]
+        for r in range(n):
+            if r != col and M[r][col] != 0:
+                f = M[r][col] / M[col][col]
+                M[r] = [a - f * b_ for a, b_ in zip(M[r], M[col])]; rhs[r] -= f * rhs[col]
+    return [rhs[i] / M[i][i] for i in range(n)]
